@@ -161,6 +161,28 @@ plain!(Over16, "Over16", u64, |p: u32| p as u64, |v: &u64| *v as u32, |v: &mut u
 plain!(Zst, "Zst", (), |_p: u32| (), |_v: &()| 0, |_v: &mut ()| ());
 plain!(ZstA8, "ZstA8", [u64; 0], |_p: u32| [], |_v: &[u64; 0]| 0, |_v: &mut [u64; 0]| ());
 
+/// `Option<lab_types::P4>`: a field type whose recorded name starts with `Option <` (always `Some`
+/// when made by the lab; a `None` read back shows as payload 999_998).
+pub type OptP4 = Option<P4>;
+impl LabVal for Option<P4> {
+    const KEY: &'static str = "OptP4";
+    const TRACKED: bool = false;
+    fn make(payload: u32) -> Self {
+        Some(P4::make(payload))
+    }
+    fn payload(&self) -> u32 {
+        self.as_ref().map_or(999_998, |v| v.payload())
+    }
+    fn serial(&self) -> u32 {
+        0
+    }
+    fn touch(&mut self) {
+        if let Some(v) = self {
+            v.touch()
+        }
+    }
+}
+
 // ------------------------------------------------------------------------------- tracked types
 
 macro_rules! tracked {
@@ -263,6 +285,9 @@ tracked!(FnOf<T>, "FnRc", fn(T) -> usize, |_p: u32| {
 tracked!(Shared<T>, "MxCell", std::sync::Arc<std::sync::Mutex<Option<T>>>, |_p: u32| std::sync::Arc::new(
     std::sync::Mutex::new(None)
 ));
+// a user generic type whose argument is a standard type: `lab_types::Wrap<alloc::string::String>`
+tracked!(Wrap<T>, "WrapStr", PhantomData<T>, |_p: u32| PhantomData);
+pub type WrapStr = Wrap<String>;
 pub type FnRc = FnOf<RcT>;
 pub type MxCell = Shared<CellT>;
 const _: () = {
